@@ -462,6 +462,11 @@ func c10Gen(t *rapid.T) c10Case {
 	default:
 		c.Probe = genC10Leaf(t, false)
 	}
+	if rapid.IntRange(0, 5).Draw(t, "circleprobe") == 0 {
+		// X may be a Circle: "within X iff non-empty and every child is within X" goes through Circle.Contains
+		c.Probe = objSpec{Kind: "Circle", Pts: []fpt{{F(rapid.IntRange(3, 11).Draw(t, "ccx")), F(rapid.IntRange(3, 11).Draw(t, "ccy"))}},
+			Radius: F(rapid.SampledFrom([]float64{0, 30000, 120000, 250000, 400000, 700000, 2e6}).Draw(t, "cr")), Steps: 64}
+	}
 	x0, y0 := rapid.IntRange(2, 12).Draw(t, "qx0"), rapid.IntRange(2, 12).Draw(t, "qy0")
 	c.Query = [4]int{x0, y0, x0 + rapid.IntRange(0, 5).Draw(t, "qw"), y0 + rapid.IntRange(0, 5).Draw(t, "qh")}
 	switch rapid.IntRange(0, 5).Draw(t, "qmode") {
